@@ -300,6 +300,36 @@ pub struct BaseFrame {
 }
 
 /// The base corpus B.  `cookies` must hold the cookies of flows (v6?, 40000, 80).
+/// STUN Binding requests carrying one attribute of every assigned type (RFC 3489 / 5389 / 5780
+/// ranges) with WELL-FORMED values of the shapes those attributes have (IPv4 / IPv6 address with
+/// another port, flag words, text, empty), in the short form and in the >= 256-byte form the
+/// stream matcher identifies (attribute before / after the padding attribute).
+pub fn stun_attr_shapes() -> Vec<Vec<u8>> {
+    let mut types: Vec<u16> = (0u16..0x0031).collect();
+    types.extend(0x8000u16..0x8031);
+    types.extend([0xc000u16, 0xc057, 0xffff]);
+    let vals: Vec<Vec<u8>> = vec![
+        vec![0, 1, 0x1f, 0x90, 9, 9, 9, 9],
+        [&[0u8, 2, 0x1f, 0x90][..], &[0x20, 1, 0xd, 0xb8, 0, 0, 0, 0, 0, 0, 0, 0, 0, 0, 0, 9][..]].concat(),
+        vec![0, 0, 0, 2],
+        vec![0, 0, 0, 6],
+        vec![0x1f, 0x90, 0, 0],
+        b"text".to_vec(),
+        vec![],
+    ];
+    let pad = stun_attr(0x8022, &[b'p'; 252]);
+    let mut v = Vec::new();
+    for t in &types {
+        for val in &vals {
+            let a = stun_attr(*t, val);
+            v.push(stun_magic(&a, &ID12));
+            v.push(stun_magic(&[a.clone(), pad.clone()].concat(), &ID12));
+            v.push(stun_magic(&[pad.clone(), a].concat(), &ID12));
+        }
+    }
+    v
+}
+
 pub fn base_frames(cookies: &HashMap<FlowKey, u32>) -> Vec<BaseFrame> {
     let mut v: Vec<BaseFrame> = Vec::new();
     let mut add = |name: String, frame: Vec<u8>| {
